@@ -10,9 +10,11 @@ for k in $keys; do
   pid=${k%-*}
   checks=$(python3 -c "import json;m=json.load(open('seeded/$k/meta.json'));print(' '.join(m.get('recheck',['$pid'])))")
   for c in $checks; do
-    log=$(timeout 2400 tools/mutant.sh $c seeded/$k/patch.diff 2>&1); rc=$?
+    # a seed whose lines were touched by a later fix: in /repo is kept as patch.diff (original) + patch-rebased.diff
+    patch=seeded/$k/patch.diff; [ -f seeded/$k/patch-rebased.diff ] && patch=seeded/$k/patch-rebased.diff
+    log=$(timeout 2400 tools/mutant.sh $c $patch 2>&1); rc=$?
     sig=$(echo "$log" | grep -m1 'signature:' | sed 's/.*signature: //' | cut -c1-160)
-    res="MISSED"; [ $rc -eq 1 ] && res="caught"; echo "$log" | grep -q 'PATCH-DOES-NOT-APPLY\|BUILD-FAILED' && res="n/a (patch/build)"
+    res="MISSED"; [ $rc -eq 1 ] && res="caught"; [ $rc -ne 1 ] && python3 -c "import json,sys;sys.exit(0 if 'obsolete' in json.load(open('seeded/$k/meta.json')) else 1)" && res="obsolete (no longer breaks the property: see meta.json)"; echo "$log" | grep -q 'PATCH-DOES-NOT-APPLY\|BUILD-FAILED' && res="n/a (patch/build)"
     echo "| $k | $c | $res | $sig |" >> $out
     echo "$k $c $res"
   done
